@@ -127,4 +127,40 @@ impl VarOrder {
 //%% @entry
         proof { reveal(VarOrder::wf); }
 //%% end
+
+//%% extract src/repr/var_order.rs :: impl VarOrder :: fn sort
+//%% @ret r
+//%% @spec
+        requires
+            self.wf(),
+            a.var_s() matches Some(l) ==> self.has(l),
+            b.var_s() matches Some(l) ==> self.has(l),
+        ensures
+            (r.0 == a && r.1 == b) || (r.0 == b && r.1 == a),
+            self.opos(r.0.var_s()) <= self.opos(r.1.var_s()),
+//%% @entry
+        proof { reveal(VarOrder::wf); }
+//%% end
+
+//%% extract src/repr/var_order.rs :: impl VarOrder :: fn above
+//%% @ret r
+//%% @spec
+        requires self.wf(), self.has(a),
+        ensures
+            r is None <==> self.pos(a) == 0,
+            r matches Some(v) ==> self.has(v) && self.pos(v) == self.pos(a) - 1,
+//%% @entry
+        proof { reveal(VarOrder::wf); }
+//%% end
+
+//%% extract src/repr/var_order.rs :: impl VarOrder :: fn below
+//%% @ret r
+//%% @spec
+        requires self.wf(), self.has(a),
+        ensures
+            r is None <==> self.pos(a) + 1 >= self.n(),
+            r matches Some(v) ==> self.has(v) && self.pos(v) == self.pos(a) + 1,
+//%% @entry
+        proof { reveal(VarOrder::wf); }
+//%% end
 }
